@@ -1532,7 +1532,8 @@ static void finish(int verdict, const char* cls, const char* fmt, va_list ap) {
 void fail(const char* cls, const char* fmt, ...) {
   va_list ap;
   va_start(ap, fmt);
-  finish(V_VIOLATION, cls, fmt, ap);
+  // "ENGINE" is reserved for limits of the machinery itself (harness or runtime): an error, never a verdict
+  finish(strcmp(cls, "ENGINE") == 0 ? V_ENGINE : V_VIOLATION, cls, fmt, ap);
 }
 void prune() { finishf(V_PRUNED, "PRUNED", "pruned by harness"); }
 
@@ -1649,8 +1650,8 @@ void join_all() {
 static void crash_handler(int sig, siginfo_t* si, void*) {
   if (g.failing) _exit(3);
   VThread* me = tl_self;
-  if (sig == SIGALRM)
-    finishf(V_VIOLATION, "HANG", "wall-clock limit of %d s exceeded (T%d in %s)", g_cfg.wall_limit_s, g.current,
+  if (sig == SIGALRM) // backstop only (step and plain-access horizons decide hangs deterministically): a machinery limit, not a verdict
+    finishf(V_ENGINE, "WALLCLOCK", "wall-clock limit of %d s exceeded (T%d in %s)", g_cfg.wall_limit_s, g.current,
             opname_of_thread(&g.th[g.current]));
   finishf(V_VIOLATION, "CRASH", "signal %d (%s) at address %p in T%d during %s", sig, strsignal(sig), si ? si->si_addr : nullptr,
           me ? me->id : -1, opname_of_thread(me));
